@@ -4516,7 +4516,11 @@ class ResponseFuture(object):
 
         if self._connection is not None:
             try:
-                self._connection._requests.pop(self._req_id)
+                # the attempt made under this stream id may be over already (answered, its retry still queued) and
+                # the id reused by another request: that request's handler and stream id are not ours to take
+                stale = not self._is_own_handler(self._connection._requests[self._req_id][0])
+                if not stale:
+                    self._connection._requests.pop(self._req_id)
             # PYTHON-1044
             # This request might have been removed from the connection after the latter was defunct by heartbeat.
             # We should still raise OperationTimedOut to reject the future so that the main event thread will not
@@ -4528,7 +4532,7 @@ class ResponseFuture(object):
                 return
 
             pool = self.session._pools.get(self._current_host)
-            if pool and not pool.is_shutdown:
+            if not stale and pool and not pool.is_shutdown:
                 # Do not return the stream ID to the pool yet. We cannot reuse it
                 # because the node might still be processing the query and will
                 # return a late response to that query - if we used such stream
@@ -4552,6 +4556,11 @@ class ResponseFuture(object):
                 errors = {host: "Request timed out while waiting for schema agreement. See Session.execute[_async](timeout) and Cluster.max_schema_agreement_wait."}
 
         self._set_final_exception(OperationTimedOut(errors, self._current_host))
+
+    def _is_own_handler(self, cb):
+        # what _query registers: partial(self._set_result, ...) or partial(session.submit, self._execute_after_prepare, ...)
+        candidates = (getattr(cb, 'func', None),) + tuple(getattr(cb, 'args', ()))[:1]
+        return any(getattr(c, '__self__', None) is self for c in candidates)
 
     def _on_speculative_execute(self):
         self._timer = None
